@@ -65,9 +65,18 @@ def lock_error(stderr):
         except Exception: pass
     return False
 
+def set_lock_host(rr, host):
+    full = json.load(open(os.path.join(rr.repo, "Monorail.json")))
+    full["server"]["lock"]["host"] = host
+    json.dump(full, open(os.path.join(rr.repo, "Monorail.json"), "w"))
+
 def holder_round(ctx, rng, holder_api, n_cont, end_kind):
     rr = runscen.RunRepo(ctx, CFG, commands=["build"])
     try:
+        # the lock address is host AND port: half of the rounds use a loopback address other than the default 127.0.0.1
+        host = rng.choice(["127.0.0.1", "127.0.0.2", "127.0.0.77"])
+        if host != "127.0.0.1": set_lock_host(rr, host)
+        ctx.count("lock_host_" + ("default" if host == "127.0.0.1" else "other_loopback"))
         vlib.monorail(rr.repo, "checkpoint", "update"); vlib.monorail(rr.repo, "run", "-c", "build", env=rr.env())
         rr.clear_traces()
         rr.script = {"*": {"exit": 3 if end_kind == "failure" else 0}}; rr.write_script()
